@@ -359,3 +359,78 @@ YZ/yz\t-130
         assert_eq!(conn.cost(1, 2), 40);
     }
 }
+
+#[cfg(feature = "verif")]
+impl DualConnector {
+    pub const fn verif_from_parts(
+        matrix_connector: MatrixConnector,
+        right_conn_id_map: Vec<u16>,
+        left_conn_id_map: Vec<u16>,
+        right_feat_ids: Vec<U31x8>,
+        left_feat_ids: Vec<U31x8>,
+        raw_scorer: Scorer,
+    ) -> Self {
+        Self {
+            matrix_connector,
+            right_conn_id_map,
+            left_conn_id_map,
+            right_feat_ids,
+            left_feat_ids,
+            raw_scorer,
+        }
+    }
+
+    pub const fn verif_matrix_connector(&self) -> &MatrixConnector {
+        &self.matrix_connector
+    }
+
+    pub fn verif_right_conn_id_map(&self) -> &[u16] {
+        &self.right_conn_id_map
+    }
+
+    pub fn verif_left_conn_id_map(&self) -> &[u16] {
+        &self.left_conn_id_map
+    }
+
+    pub fn verif_right_feat_ids(&self) -> &[U31x8] {
+        &self.right_feat_ids
+    }
+
+    pub fn verif_left_feat_ids(&self) -> &[U31x8] {
+        &self.left_feat_ids
+    }
+
+    pub const fn verif_raw_scorer(&self) -> &Scorer {
+        &self.raw_scorer
+    }
+
+    pub fn verif_create_matrix_connector(
+        right_feat_ids_tmp: &[Vec<U31>],
+        left_feat_ids_tmp: &[Vec<U31>],
+        matrix_indices: &[usize],
+        feat_template_size: usize,
+        scorer: &Scorer,
+    ) -> (MatrixConnector, Vec<u16>, Vec<u16>) {
+        Self::create_matrix_connector(
+            right_feat_ids_tmp,
+            left_feat_ids_tmp,
+            matrix_indices,
+            feat_template_size,
+            scorer,
+        )
+    }
+
+    pub fn verif_create_raw_connector(
+        right_feat_ids_tmp: &[Vec<U31>],
+        left_feat_ids_tmp: &[Vec<U31>],
+        raw_indices: &[usize],
+        scorer_builder: &mut ScorerBuilder,
+    ) -> (Vec<U31>, Vec<U31>) {
+        Self::create_raw_connector(
+            right_feat_ids_tmp,
+            left_feat_ids_tmp,
+            raw_indices,
+            scorer_builder,
+        )
+    }
+}
